@@ -94,6 +94,26 @@ def exc_ident(e) -> list:
     return ['Other:' + type(e).__name__, 0, 0, 0]
 
 
+import contextlib
+
+
+@contextlib.contextmanager
+def det_uuids(spec):
+    """an unnamed switch gets `uuid4().hex[-8:]` as its node id: make the ids a function of the program, so that two builds
+    of one program (a history's chart and the fresh chart it is compared with; a program and its Sem oracle) are the same
+    graph.  Different programs still get different ids (and with them different launch orders)."""
+    import json as _json
+    import random as _random
+    import uuid as _uuid
+    r = _random.Random(fnv1a64(_json.dumps(spec, sort_keys=True)))
+    orig = _uuid.uuid4
+    _uuid.uuid4 = lambda: _uuid.UUID(int=r.getrandbits(128), version=4)
+    try:
+        yield
+    finally:
+        _uuid.uuid4 = orig
+
+
 WORLD_INDEX = {'index_of': None}      # fallback when no run context is active (set by engine_run.World)
 
 
